@@ -12,7 +12,7 @@ import (
 
 func init() {
 	register("P-CLONE", "Statement.Clone returns a freshly allocated statement whose slice has a fresh backing array (one-element wrap of the original, or an element-wise copy) — never the original's slice header or a re-slice of it", 2, ruleClone)
-	register("P-API-FORMS", "every construct (enumerated from the *Statement method set) exists as a package function and a *Group method with the same parameters; the function form is the method applied to a new statement, the Group form builds the statement from the same arguments, appends it to the group exactly once and returns it; the Statement form appends in place and returns its receiver", 300, ruleAPIForms)
+	register("P-API-FORMS", "every construct (enumerated from the *Statement method set) exists as a package function and a *Group method with the same parameters; the function form is the method applied to a new statement, the Group form builds the statement from the same arguments, appends it to the group exactly once and returns it; the Statement form appends in place and returns its receiver", 300, rulePXAPIForms)
 	register("T-GENNAMES", "gennames: the fields of the `go list` template are read back from the positions they were written to (ImportPath is the key, Name the value of the table) and the table is emitted as path: name", 4, ruleGenNames)
 }
 
